@@ -18,7 +18,8 @@ RULE = ('case = generated workflow with sequential tasks on 1-3 recurrences, '
         'runahead P0-P4, mixed plans; distinct by event census')
 ASSUMPTIONS = []
 MIN = {'c31.sequential_submits': 300, 'c31.order_checks': 150,
-       'c31.overlap_checks': 2000}
+       'c31.overlap_checks': 2000,
+       'warm_starts_into_two_digit_cycles': 100}
 NCASES = {'quick': 1000, 'thorough': 12000}
 
 
@@ -27,8 +28,21 @@ def ncases(tier):
 
 
 def run_case(ctx, i, rng):
+    # a quarter of the runs are warm starts of workflows with more than
+    # nine cycles (start point and later points of different widths)
+    wide = rng.random() < 0.25
     feat = wfgen.Features(sequential=True, retries=rng.random() < 0.3,
-                          max_tasks=5)
+                          max_tasks=4 if wide else 5,
+                          min_final=10 if wide else 2,
+                          max_final=12 if wide else 5)
+
+    def warm(rng, case):
+        if wide:
+            start = rng.randint(2, 9)
+            case['options'] = {'startcp': str(start)}
+            case['start_point'] = start
+            ctx.count('warm_starts_into_two_digit_cycles')
+
     simple_case(ctx, i, rng, PID, feat,
                 plan_class=rng.choice(['all-complete', 'mixed']),
-                hostile=0.5)
+                hostile=0.5, policy_fn=warm)
